@@ -276,3 +276,54 @@ func VHarness_C09_RemoveEntriesAndNodeData() {
 	vAssert(err == nil && brs.EntryCount == 2, "bystander-unaffected")
 	vReach("done")
 }
+
+// C09: three saves in one process (append, append up to / across a batch
+// boundary, then a conflicting overwrite into the middle): the cached last
+// batch of the batched format must never be staler than what was written.
+//vcheck: reach=boundary,overwrite,done workers=16
+func VHarness_C09_ThreeSaves() {
+	batched := true
+	if vTier() > 0 {
+		batched = vBool("batched")
+	}
+	batchSize = 4
+	store := &vStore{}
+	d := vOpenDB(store, batched)
+	ctx := newContext(1024, 1024*1024)
+	n1 := vChoose("n1", 6) + 1
+	e1, t1 := vEntries(1, n1, 1)
+	vAssert(d.saveRaftState([]pb.Update{{ShardID: 1, ReplicaID: 1, State: pb.State{Term: 1, Commit: 1}, EntriesToSave: e1}}, ctx) == nil, "save1-ok")
+	ctx.Reset()
+	n2 := vChoose("n2", 3) + 1
+	e2, t2 := vEntries(uint64(n1)+1, n2, t1)
+	vAssert(d.saveRaftState([]pb.Update{{ShardID: 1, ReplicaID: 1, EntriesToSave: e2}}, ctx) == nil, "save2-ok")
+	ctx.Reset()
+	if (n1+n2)%4 == 3 {
+		vReach("boundary") // the second save ends on the last slot of a batch
+	}
+	total := n1 + n2
+	s := uint64(vChoose("s", total)) + 2 // 2..total+1
+	n3 := vChoose("n3", 2) + 1
+	minTerm := t2
+	if s <= uint64(total) {
+		minTerm = t2 + 1
+		vAssume(minTerm < 128)
+		vReach("overwrite")
+	}
+	e3, _ := vEntries(s, n3, minTerm)
+	vAssert(d.saveRaftState([]pb.Update{{ShardID: 1, ReplicaID: 1, EntriesToSave: e3}}, ctx) == nil, "save3-ok")
+	ctx.Reset()
+	logical := append(append(append([]pb.Entry(nil), e1...), e2...)[:s-1], e3...)
+	last := uint64(len(logical))
+	for _, dd := range []*db{d, vOpenDB(store, batched)} {
+		rs, err := dd.readRaftState(1, 1, 0)
+		vAssert(err == nil && rs.FirstIndex == 1 && rs.EntryCount == last, "first-index-and-length")
+		ents, _, err := dd.iterateEntries(nil, 0, 1, 1, 1, last+1, 1<<40)
+		vAssert(err == nil, "iterate-ok")
+		vAssert(uint64(len(ents)) == last, "whole-log-returned-no-gap")
+		for i := range ents {
+			vAssert(ents[i].Index == uint64(i)+1 && ents[i].Term == logical[i].Term, "entries-are-the-logical-log")
+		}
+	}
+	vReach("done")
+}
